@@ -387,6 +387,8 @@ func runC19(c *Ctx) {
 		}
 	}
 	_ = types.Typ
+	ruleMutatorAtomic(c, "C19.7")
+	c18Locks(c, "C19.8")
 }
 
 func exprKeyOfBlock(b *ast.BlockStmt) string {
@@ -594,6 +596,8 @@ func runC20(c *Ctx) {
 		})
 		c.Check(okLoop, "C20.2", rt.Name+"|each-piece-once", rt.Decl.Pos(), "every statement of a submitted line is executed once, in order", "runTerminal does not hand each statement of the line to the session exactly once in order")
 	}
+	ruleVendoredEqualsUpstream(c, "C20.4", vendoredTerminal)
+	ruleRemainderInvariant(c, "C20.5")
 	// C20.3
 	if bk := c.NeedFunc("C20.3", "console.bytesToKey"); bk != nil {
 		g := bk.Graph()
